@@ -96,6 +96,8 @@ def _cases(draw, tier):
     mode = "frac"
     if d <= 4 and spec["cls"] == "random" and len(spec["elem"]) <= (4 if d == 4 else 5) and draw(st.integers(0, 3)) == 0:
         mode = "generic"
+    elif d <= 5 and spec["cls"] in ("random", "dominant") and draw(st.integers(0, 4)) == 0:
+        mode = "complex"      # complex coefficients (a + b*i with b != 0), e.g. a single complex blade
     case = {"cfg": cfg, "kind": kind, "x": spec, "mode": mode,
             "layout": draw(st.sampled_from(["canonical", "canonical", "permuted", "padded", "padded+permuted"])),
             "pad": draw(st.lists(st.integers(0, 2 ** d - 1), unique=True, max_size=3 if d <= 4 else 1)),
@@ -222,6 +224,8 @@ def evaluate(case):
     floatmode = d >= 6
     if mode == "generic":
         vals = [Q.var(f"x{k}") if v != 0 else v for k, v in zip(keys, vals)]
+    if mode == "complex":
+        vals = [complex(float(v), float(v) / 2 + 1) if v != 0 else 0j for v in vals]
     x = kd.mk(alg, keys, vals)
     dx = dict(zip(keys, vals))
     counters = {}
@@ -229,6 +233,9 @@ def evaluate(case):
     # reference verdict
     if mode == "generic":
         rinv = "generic"
+        singular = None
+    elif mode == "complex":
+        rinv = "complex"          # no exact reference: the two-sided identity decides (tolerance 1e-9)
         singular = None
     else:
         rinv = Rr.inv(clean(dx))
@@ -254,6 +261,9 @@ def evaluate(case):
         counters[f"raised_unspecified:{type(xinv).__name__}"] = 1
         return Info(False, labels + ["raised:other"], key, counters)
     if st_ == "zde":
+        if mode == "complex":
+            counters["zde_complex_unchecked"] = 1
+            return Info(False, labels + ["raised:ZeroDivisionError"], key, counters)
         if mode == "generic":
             # accept only if singular at sample points
             for shift in range(3):
@@ -278,7 +288,7 @@ def evaluate(case):
     if singular and floatmode:
         counters["singular_float_returned"] = 1
         return Info(False, labels, key, counters)
-    tol = 1e-7 if floatmode else None
+    tol = 1e-7 if floatmode else (1e-9 if mode == "complex" else None)
     for side, fn in (("x*x.inv()", lambda: x * xinv), ("x.inv()*x", lambda: xinv * x)):
         s2, p = kcall(fn, side)
         if s2 != "ok":
@@ -288,7 +298,7 @@ def evaluate(case):
             extra = " (the reference says x is singular)" if singular else ""
             raise Violation("two-sided-inverse", "inv", f"{side} != 1 for x = {kd.show(dx)} in signature {ref.sig}: {why}{extra}",
                             operand=kd.show(dx), inverse=kd.show(gi))
-    if rinv not in (None, "generic"):
+    if rinv not in (None, "generic", "complex"):
         ok, why = kd.elem_equal(gi, rinv, tol)
         if not ok:
             raise Violation("two-sided-inverse", "inv", f"x.inv() differs from the exact inverse: {why}", observed=kd.show(gi), expected=kd.show(rinv))
@@ -306,6 +316,14 @@ def evaluate(case):
         s3, q2 = kcall(lambda: a.div(x), "a.div(x)")
         if s3 != "ok" or not kd.elem_equal(kd.to_dict(q2, op="div"), own, tol)[0]:
             raise Violation("div=a*inv(b)", "div", "a.div(b) != a * b.inv()")
+        # a list / a zero-argument callable on the left of '/': same value, same operand order
+        for what, fn in (("[a] / b", lambda: ([a] / x)[0]), ("(lambda: a) / b", lambda: (lambda: a) / x)):
+            s4, q4 = kcall(fn, what)
+            if s4 != "ok":
+                raise Violation("div=a*inv(b)", "div", f"{what} raised {type(q4).__name__}: {q4}", exc=type(q4).__name__)
+            ok, why = kd.elem_equal(kd.to_dict(q4, op="div"), own, tol)
+            if not ok:
+                raise Violation("div=a*inv(b)", "div", f"{what} != a * b.inv(): {why}", observed=kd.show(kd.to_dict(q4)), expected=kd.show(own))
     elif kind == "rdiv":
         nmb = frac(case["number"])
         s2, q = kcall(lambda: nmb / x, "number / x")
